@@ -16,6 +16,8 @@ import (
 	"gosym/interp"
 )
 
+var maxFindingsPerEntry = 12
+
 type replayFile struct {
 	Entry    string         `json:"entry"`
 	Vector   []uint64       `json:"vector"`
@@ -228,7 +230,7 @@ func finish(spec Spec, tier string, entries []EntrySpec, results []*entryResult,
 				u.count++
 				continue
 			}
-			if per >= 12 {
+			if per >= maxFindingsPerEntry {
 				continue
 			}
 			per++
